@@ -1326,7 +1326,13 @@ def shift_inv(c):
     return wf(S, ORD) + [('same-variables', And(S.nvars == E.nvars, ForAll([n_], S.vin[n_] == E.vin[n_], patterns=[S.vin[n_]]),
                                                 ForAll([l_], S.lin[l_] == E.lin[l_], patterns=[S.lin[l_]]))),
                          ('moved-so-far', shift_effect(E, S, a, c.idx)), ('switches-kept', And(S.lastlen == E.lastlen, S.ctx == E.ctx)),
-                         ('idx', c.idx >= 0)]
+                         ('idx', c.idx >= 0), ('sizes-keys-between-start-and-end', shift_sizes(a, c.env['sizes']))]
+
+
+def shift_sizes(a, sizes):
+    """the recorded sizes are indexed by levels between `start` and `end`, and there are none when start == end"""
+    return ForAll([l_], Implies(sizes.has[l_], And(a.start != a.end, min2(a.start, a.end) <= l_, l_ <= If(a.start >= a.end, a.start, a.end))),
+                  patterns=[sizes.has[l_]])
 
 
 reg(Contract('dd.bdd._shift', [('bdd', 'mgr'), ('start', 'int'), ('end', 'int'), ('levels', 'opaque')], mgr='bdd',
@@ -1337,9 +1343,50 @@ reg(Contract('dd.bdd._shift', [('bdd', 'mgr'), ('start', 'int'), ('end', 'int'),
                  ('the-same-by-name', ForAll([n_], Implies(c.S0.vin[n_], c.S1.v2l[n_] == shift_map(c.a, c.S0.v2l[n_])),
                                              patterns=[c.S1.v2l[n_], c.S0.v2l[n_]])),
                  ('same-variables', And(c.S1.nvars == c.S0.nvars, ForAll([n_], c.S1.vin[n_] == c.S0.vin[n_], patterns=[c.S1.vin[n_]]))),
-                 ('switches-kept', And(c.S1.lastlen == c.S0.lastlen, c.S1.ctx == c.S0.ctx))],
-             modifies=M.ALLF, ret='opaque', uses=ORD, loops={0: dict(inv=shift_inv, modifies_mgr=[('bdd', M.ALLF)], modifies_dicts=['sizes'])},
+                 ('switches-kept', And(c.S1.lastlen == c.S0.lastlen, c.S1.ctx == c.S0.ctx)),
+                 ('sizes-keys-between-start-and-end', shift_sizes(c.a, c.r))],
+             modifies=M.ALLF, ret='dict:int->int', uses=ORD, loops={0: dict(inv=shift_inv, modifies_mgr=[('bdd', M.ALLF)], modifies_dicts=['sizes'])},
              note='rests on the ASSUMED order effect of swap'))
+
+
+# sifting (C07): `_reorder_var`, `_apply_sifting` and the sifting branch of `reorder` against the ASSUMED order effect of swap:
+# whatever positions sifting chooses, afterwards the same variables occupy the same contiguous levels one-to-one (WF order clauses),
+# and the switches of dynamic reordering are as before. That no function changes rests on the assumed/observed contract of swap;
+# that the table does not grow is checked by the code itself (AssertionError) and by the observed contract dd.bdd.reorder!observed.
+def sift_kept(S0, S1):
+    return [('same-variables', And(S1.nvars == S0.nvars, ForAll([n_], S1.vin[n_] == S0.vin[n_], patterns=[S1.vin[n_]]),
+                                   ForAll([l_], S1.lin[l_] == S0.lin[l_], patterns=[S1.lin[l_]]))),
+            ('switches-kept', And(S1.lastlen == S0.lastlen, S1.ctx == S0.ctx))]
+
+
+reg(Contract('dd.bdd._reorder_var', [('bdd', 'mgr'), ('var', 'name'), ('levels', 'opaque')], mgr='bdd',
+             pre=lambda c: wf(c.S, ORD), post=lambda c: wf(c.S1, ORD) + sift_kept(c.S0, c.S1) + [
+                 ('returns-a-level', And(0 <= c.r, c.r < c.S1.nvars))],
+             modifies=M.ALLF, ret='int', uses=ORD,
+             raises={'ValueError': Raise(when=lambda c: Not(c.S0.vin[c.a.var]), must=True, post=lambda c: [('nothing-modified', M.keep(c.S0, c.S1))]),
+                     'AssertionError': Raise(when=lambda c: c.S0.vin[c.a.var], post=lambda c: wf(c.S1, ORD) + sift_kept(c.S0, c.S1))},
+             note='rests on the ASSUMED order effect of swap (through _shift); the AssertionError is the code\'s own check that the '
+                  'table did not grow'))
+
+
+def sift_inv(c):
+    S, E = c.mgrs['bdd'], c.entry['bdd']
+    names = c.env['names']
+    return wf(S, ORD) + sift_kept(E, S) + [('names-are-declared', ForAll([n_], Implies(names.has[n_], E.vin[n_]), patterns=[names.has[n_]]))]
+
+
+def sift_post(c):
+    return wf(c.S1, ORD) + sift_kept(c.S0, c.S1)
+
+
+SIFT_RAISES = {'AssertionError': Raise(when=lambda c: BoolVal(True), post=sift_post)}
+reg(Contract('dd.bdd._apply_sifting', [('bdd', 'mgr')], mgr='bdd', pre=lambda c: wf(c.S, None), post=sift_post,
+             modifies=M.ALLF, ret='none', uses=ORD, raises=SIFT_RAISES,
+             loops={0: dict(inv=sift_inv, modifies=['k', 'm'], modifies_mgr=[('bdd', M.ALLF)])},
+             note='every declared variable is sifted once; rests on the ASSUMED order effect of swap'))
+reg(Contract('dd.bdd.reorder!sifting', [('bdd', 'mgr'), ('order', 'none')], mgr='bdd', pre=lambda c: wf(c.S, None), post=sift_post,
+             modifies=M.ALLF, ret='none', uses=ORD, raises=SIFT_RAISES,
+             note='reorder(bdd): the sifting branch (order=None)'))
 
 
 def adjacent(S, x, y):
